@@ -141,7 +141,7 @@ func bigEvent(shape string, n int, rng *rand.Rand) map[string]any {
 	case obs = <-done:
 	case <-time.After(60 * time.Second):
 		ev["out"] = "hang"
-		ev["scans"], ev["complete"], ev["ns4k"], ev["ns64k"] = 0, false, 0, 0
+		ev["scans"], ev["complete"], ev["us4k"], ev["us64k"] = 0, false, 0, 0
 		return ev
 	}
 	ev["scans"] = scanCount.Load() - before
@@ -170,7 +170,8 @@ func bigEvent(shape string, n int, rng *rand.Rand) map[string]any {
 		}
 	}
 	debug.SetGCPercent(old)
-	ev["ns4k"], ev["ns64k"] = t4, t64
+	// microseconds: TLC integers are 32 bits wide
+	ev["us4k"], ev["us64k"] = t4/1000, t64/1000
 	return ev
 }
 
